@@ -187,7 +187,7 @@ def judge(case, results):
             out.append({"class": "fresh-font-after-failure", "detail": d})
         for n in r.get("ninja", []):
             for a in n.get("anomalies", []):
-                if a["k"].startswith("hb."):
+                if a["k"] == "hb.unordered_access":
                     out.append({"class": a["k"], "detail": {"edge": a.get("edge"), "path": a.get("path")}})
     # one finding per class is enough for a case
     seen, uniq = set(), []
